@@ -1084,6 +1084,70 @@ func clientFacts() (doNotRescan, acceptOrder bool) {
 	return doNotRescan, a < b && b < c
 }
 
+// replayStart: where client/main.go do_the_blocks(end) starts its walk to `end` (the farthest node on disk, set by host_init when it is
+// higher than the tip). Shapes understood, on the top level of the function in front of the loop `for <cur> != <end>`:
+//
+//	<cur> := ….LastBlock()
+//	if <cur> != <end> { <cur> = <cur>.FindFirstFather(<end>) }      (or the assignment without the test)     -> commonAncestor
+//	no FindFirstFather at all                                                                                 -> tip
+//
+// FindPathTo(end) panics when it is asked for the way from a block that is not an ancestor of end: after a reorganisation the
+// snapshot's block is such a block until the next snapshot is complete.
+func replayStart() string {
+	files := parseDir("client")
+	fd := findFunc(files, "", "do_the_blocks")
+	if fd == nil || fd.Type.Params == nil || len(fd.Type.Params.List) != 1 || len(fd.Type.Params.List[0].Names) != 1 {
+		die(fmt.Errorf("client: do_the_blocks(end) not found"))
+	}
+	end := fd.Type.Params.List[0].Names[0].Name
+	cur, found, loop := "", 0, false
+	for _, st := range fd.Body.List {
+		if f, ok := st.(*ast.ForStmt); ok {
+			if cur == "" || f.Init != nil || f.Post != nil || f.Cond == nil || src(f.Cond) != cur+"!="+end {
+				die(fmt.Errorf("client.do_the_blocks: the loop is not `for <block> != %s` over the variable set from LastBlock() - not a shape the model knows", end))
+			}
+			loop = true
+			break
+		}
+		if a, ok := st.(*ast.AssignStmt); ok && len(a.Lhs) == 1 && len(a.Rhs) == 1 && strings.HasSuffix(src(a.Rhs[0]), ".LastBlock()") {
+			if cur != "" {
+				die(fmt.Errorf("client.do_the_blocks: LastBlock() is read twice in front of the loop - not a shape the model knows"))
+			}
+			cur = src(a.Lhs[0])
+			continue
+		}
+		if cur != "" && (strings.HasPrefix(src(st), cur+"=") || strings.Contains(src(st), "{"+cur+"=") || strings.Contains(src(st), ";"+cur+"=")) && !strings.Contains(src(st), "FindFirstFather") {
+			die(fmt.Errorf("client.do_the_blocks: %s is reassigned in front of the loop by something else than FindFirstFather - not a shape the model knows", cur))
+		}
+		if !strings.Contains(src(st), "FindFirstFather") {
+			continue
+		}
+		asg := st
+		if is, ok := st.(*ast.IfStmt); ok {
+			c := src(is.Cond)
+			if is.Init != nil || is.Else != nil || len(is.Body.List) != 1 || (c != cur+"!="+end && c != end+"!="+cur) {
+				die(fmt.Errorf("client.do_the_blocks: FindFirstFather under a test that is not `%s != %s` - not a shape the model knows", cur, end))
+			}
+			asg = is.Body.List[0]
+		}
+		a, ok := asg.(*ast.AssignStmt)
+		if !ok || cur == "" || a.Tok != token.ASSIGN || len(a.Lhs) != 1 || len(a.Rhs) != 1 || src(a.Lhs[0]) != cur || src(a.Rhs[0]) != cur+".FindFirstFather("+end+")" {
+			die(fmt.Errorf("client.do_the_blocks: FindFirstFather is not used as `%s = %s.FindFirstFather(%s)` - not a shape the model knows", cur, cur, end))
+		}
+		found++
+	}
+	if !loop || cur == "" {
+		die(fmt.Errorf("client.do_the_blocks: `<block> := ….LastBlock()` followed by the loop not found at the top level"))
+	}
+	if n := strings.Count(src(fd.Body), "FindFirstFather"); n != found || found > 1 {
+		die(fmt.Errorf("client.do_the_blocks: %d uses of FindFirstFather, %d of them in front of the loop - not a shape the model knows", n, found))
+	}
+	if found == 1 {
+		return "commonAncestor"
+	}
+	return "tip"
+}
+
 func main() {
 	chainFiles := parseDir("lib/chain")
 	lm := lockMode()
@@ -1100,6 +1164,7 @@ func main() {
 	sc := up.clearsOnlyWhenComplete()
 	ls := loadSeeks(chainFiles)
 	dnr, cao := clientFacts()
+	rs := replayStart()
 
 	var sb strings.Builder
 	sb.WriteString("/- GENERATED by go/cmd/gen_c07 from lib/others/sys/dblock_unix.go, lib/chain/chain.go, lib/chain/blockdb.go, lib/utxo/*.go, client/init.go, client/main.go — do not edit; not in git. -/\n")
@@ -1122,6 +1187,8 @@ func main() {
 	fmt.Fprintf(&sb, "/-- client/init.go opens the chain with DoNotRescan: true -/\ndef clientDoNotRescan : Bool := %v\n", dnr)
 	fmt.Fprintf(&sb, "/-- client/main.go LocalAcceptBlock: AbortWriting, then BlockAdd, then CommitBlock (plain top-level statements) -/\ndef clientAcceptOrder : Bool := %v\n", cao)
 	fmt.Fprintf(&sb, "/-- BlockDB.LoadBlockIndex leaves the handle of blockchain.new at maxidxfilepos (Seek after the loop): the next record is appended there -/\ndef loadSeeksAppendPos : Bool := %v\n", ls)
+	sb.WriteString("\n/-- client/main.go do_the_blocks(end) walks to `end` from the first common ancestor of the tip and `end` / from the tip itself -/\ninductive ReplayStart | commonAncestor | tip\nderiving Repr, DecidableEq\n\n")
+	fmt.Fprintf(&sb, "def clientReplayStart : ReplayStart := .%s\n", rs)
 	sb.WriteString("\nend GocoinV.Gen.C07Facts\n")
 	out := vlib.Root() + "/lean/GocoinV/Gen/C07Facts.lean"
 	if o := os.Getenv("GEN_C07_OUT"); o != "" { // experiments: leave the shared Gen/ file alone
@@ -1131,5 +1198,5 @@ func main() {
 	if err := os.WriteFile(out, []byte(sb.String()), 0644); err != nil {
 		die(err)
 	}
-	fmt.Printf("FACTS 14\n")
+	fmt.Printf("FACTS 15\n")
 }
